@@ -13,8 +13,10 @@ Oracles (all independent of Gin):
     and must receive the model's values (references deliver instances of the original class,
     with the method bindings applied).
   * the text of gin.config_str(), read with Python import semantics in a fresh child, must
-    denote exactly the model's bindings; parsed by Gin in another fresh child it must give the
-    same observations and re-serialise to the identical text.
+    denote exactly the model's bindings (no colliding bound names, every selector resolves);
+    parsed by Gin in another fresh child it must give the same observations and re-serialise
+    to a text that again denotes exactly the model (textual identity is not asserted, see
+    ASSUMPTIONS).
   * fault injection: each error class of the property raises the documented exception class.
 
 Process layout per case: the runner forks one child (ISOLATE); that child stays pristine (never
@@ -25,7 +27,6 @@ one Python-oracle child for the emitted imports, one fresh Gin child for the re-
 import hashlib
 import inspect
 import os
-import re
 import shutil
 import sys
 import tempfile
@@ -46,11 +47,12 @@ BUDGET = {'quick': (16, 70), 'thorough': (16, 1000)}
 # Final mode: a recognised alias collision (DESIGN section 6, row 13) is raised as a Violation
 # of kind 'alias-collision' so that the known-findings machinery (KNOWN['alias_collision'] +
 # an `open` entry in known_findings.json) counts it.  With False it is an OutOfDomain.
-KNOWN_AS_VIOLATION = False
+KNOWN_AS_VIOLATION = True
 
 RULE = ('Per case: a generated tree of 2 top-level packages / 8 modules (flags: does each package '
         '__init__ import its submodules; which re-exports exist), every module defining fn, gn, '
-        'class K with methods meth/other and nested class K.N with method nm, and a consumer '
+        'class K with methods meth/other/fn (fn named like the module-level function) and nested '
+        'class K.N with method nm, and a consumer '
         'cons; 1-4 config files (roots parsed as string or file, include trees) each enabling '
         'dynamic registration and importing 1-4 modules with a generated form (import a.b / '
         'import a.b as c / from a import b / from a import b as c) and alias from a small pool '
@@ -61,7 +63,10 @@ RULE = ('Per case: a generated tree of 2 top-level packages / 8 modules (flags: 
         'reference; half of the operands aim at one focus module so spellings, references and '
         'method bindings meet; optional injected fault (6 error classes). Non-trivial = (>=2 '
         'files or >=2 distinct import spellings of one module) and a method or nested class is '
-        'configured, on a valid (no injected fault) case. Distinct = distinct case JSON.')
+        'configured, on a valid (no injected fault) case. Distinct = distinct case JSON. Two '
+        'bounded sweeps run first: every import form x module depth x __init__ flag (3-file and '
+        '1-file layouts, plus one name for two modules in two files; 52 cases) and every error '
+        'class x position (root / included / second root) x variant (108 cases).')
 ASSUMPTIONS = [
     '`from X import Y` is generated only where Y is a module or package (Gin implements every '
     'import as __import__("X.Y")).',
@@ -72,11 +77,31 @@ ASSUMPTIONS = [
     'bound at most once per file, except that several plain `import top.x` / `import top.y` may '
     'share their top-level name (same object in Python).',
     'Reference targets are functions and classes (never cons), so evaluation terminates.',
+    'Identity of a configured/delivered object is observed through what calling it returns '
+    '(every generated body reports its own module and qualified name) and isinstance against '
+    'the class fetched from sys.modules; __name__/__qualname__ of Gin\'s wrappers are not '
+    'inspected (C13).',
+    'The statement syntax of the emitted config string is read with Gin\'s public statement '
+    'parser (gin.config_parser.ConfigParser with a recording delegate; C03\'s subject); what the '
+    'emitted imports and selectors denote is decided by Python in a fresh child. The '
+    're-serialised text (after the re-parse in a fresh child) must again denote exactly the '
+    'model under Python\'s reading; textual identity is not asserted (the property does not '
+    'state it): another order of sections (follows internal registry names; canonical order is '
+    'C06) and another, equally valid spelling of a section are counted under '
+    'reserialised-section-order-differs / reserialised-spelling-differs.',
     'No inheritance between generated classes; no scopes, macros or gin.* builtins in the files '
     '(covered by C04/C05/C09); aliases are never Python keywords.',
     'The input class "two different objects whose alias-substituted dotted names coincide" '
     '(known finding alias_collision) is excluded by construction (the alias is replaced by a '
     'unique one, counted under excluded:alias-collision) except in cases that carry keep=true.',
+    'The input class "a method is configured after its class was first registered through an '
+    'import spelling that gives the class another alias-substituted dotted name, or while a '
+    'reference text to its class from another file does not denote that class through the '
+    'configuring file\'s imports" (known finding method_respelled) is excluded by construction '
+    '(the method is respelled like the first registration, else the statement is aimed at the '
+    'module\'s fn; counted under excluded:method-respelled) except in cases that carry '
+    'keepm=true. A method configured after its class was referenced in the SAME file / through '
+    'an equal spelling stays in (label method-after-reference).',
     'After an injected fault only the exception class is asserted (what a failed parse leaves '
     'behind is C16).',
 ]
@@ -111,7 +136,7 @@ LEVEL_NOTE = ('Trusted: CPython import semantics in the oracle child, the 30-lin
 
 ENABLE = 'from __gin__ import dynamic_registration'
 ALIASES = ['mm', 'nn', 'm1', 'sub']
-LEAF_DEFS = ['fn', 'gn', 'K', 'K.meth', 'K.other', 'K.N', 'K.N.nm', 'cons']
+LEAF_DEFS = ['fn', 'gn', 'K', 'K.meth', 'K.other', 'K.N', 'K.N.nm', 'cons', 'K.fn']
 REF_DEFS = ['fn', 'gn', 'K', 'K.N']
 ERRORS = {
     'name-other-file': 'NameError',
@@ -152,6 +177,9 @@ class K:
 
   def other(self, x='dx', y='dy'):
     return {'id': _ID + ':K.other', 'x': x, 'y': y}
+
+  def fn(self, x='dx', y='dy'):  # same name as the module-level function, another object
+    return {'id': _ID + ':K.fn', 'x': x, 'y': y}
 
   class N:
 
@@ -213,6 +241,19 @@ def _sub(fn, payload):
   if st_ == 'ood':
     raise OutOfDomain(res.get('reason', ''))
   raise BlockingIOError('sub-child inconclusive: ' + str(res.get('reason')))  # -> inconclusive
+
+
+def _is_method(objid):
+  qual = objid.split(':')[1]
+  return '.' in qual and not qual.rsplit('.', 1)[-1][0].isupper()
+
+
+def _is_class(objid):
+  return objid.rsplit('.', 1)[-1].split(':')[-1][0].isupper()
+
+
+def _class_of(objid):
+  return objid.rsplit('.', 1)[0]
 
 
 def _ours(name, tops):
@@ -284,24 +325,23 @@ def _norm(v, tops, depth=0):
     return {k: _norm(x, tops, depth + 1) for k, x in v.items()}
   if v is None or isinstance(v, (int, str)):
     return v
-  t = type(v)
   if inspect.isfunction(v) or inspect.isclass(v):
-    if _ours(getattr(v, '__module__', None), tops):
-      return {'callable': v.__module__ + ':' + v.__qualname__,
-              'call': _norm(v(), tops, depth + 1)}
-    return '<callable ' + repr(getattr(v, '__qualname__', '?')) + '>'
-  if _ours(getattr(t, '__module__', None), tops):
-    objid = t.__module__ + ':' + t.__qualname__
+    # An uncalled reference: what it is shows in what calling it delivers (the generated
+    # bodies report their own identity); Gin's wrapper metadata is C13's business.
+    return {'callable': True, 'call': _norm(v(), tops, depth + 1)}
+  got = getattr(v, 'got', None)
+  if isinstance(got, dict) and _ours(str(got.get('id', '')).split(':')[0], tops):
+    # An instance of a generated class; `got` was written by the class's own __init__.
     try:
-      orig = isinstance(v, _fetch(objid))
+      orig = isinstance(v, _fetch(got['id']))
     except Exception:  # pylint: disable=broad-except
       orig = False
-    d = {'inst': objid, 'is_orig': orig, 'got': _norm(getattr(v, 'got', None), tops, depth + 1)}
-    for m in ('meth', 'other', 'nm'):
+    d = {'is_orig': orig, 'got': _norm(got, tops, depth + 1)}
+    for m in ('meth', 'other', 'fn', 'nm'):
       if hasattr(v, m):
         d[m] = _norm(getattr(v, m)(), tops, depth + 1)
     return d
-  return '<' + t.__name__ + '>'
+  return '<' + type(v).__name__ + '>'
 
 
 def _observe(watch, tops):
@@ -310,9 +350,8 @@ def _observe(watch, tops):
     try:
       obj = _fetch(objid)
       conf = gin.get_configurable(obj)
-      leaf = objid.rsplit('.', 1)[-1].split(':')[-1]
-      if leaf in ('meth', 'other', 'nm'):
-        cls = _fetch(objid.rsplit('.', 1)[0])
+      if _is_method(objid):
+        cls = _fetch(_class_of(objid))
         bare = cls.__new__(cls)
         obs[objid] = _norm(conf(bare), tops)
       else:
@@ -408,18 +447,21 @@ def _by_obj(table):
   return by
 
 
-class _Plan:
-  """Everything derived from the case: texts, flattened uses, model."""
+def _resolve_files(case, names, root, renames, overrides, cache):
+  """Per file: import lines, Python table, resolved statements.
 
-
-def _resolve_files(case, names, root, renames):
-  """Per file: import lines, Python table, resolved statements."""
+  overrides[(file, stmt)] = 'demote' (aim at the module's fn instead of the method) or
+  ('respell', path): how the known method_respelled class is excluded by construction.
+  """
   pkgs = {names[i] for i in PACKAGES}
   files = []
   for fidx, fspec in enumerate(case['files']):
     imps = _file_imports(fspec, fidx, names, renames)
-    res = _sub(_py_table, {'root': root, 'tops': [names[0], names[6]],
-                           'imports': [i['line'] for i in imps]})
+    lines = tuple(i['line'] for i in imps)
+    if lines not in cache:
+      cache[lines] = _sub(_py_table, {'root': root, 'tops': [names[0], names[6]],
+                                      'imports': list(lines)})
+    res = cache[lines]
     if res['error']:
       raise RuntimeError('harness: generated imports are not valid Python: ' + res['error'])
     table = res['table']
@@ -441,13 +483,19 @@ def _resolve_files(case, names, root, renames):
         raise RuntimeError(f'harness: no spelling for {objid} in file {fidx}')
       return sp[k % len(sp)]
 
-    for s in fspec['stmts']:
+    for k, s in enumerate(fspec['stmts']):
       if s[0] == 'b':
         _, imp_i, def_i, spell_i, param_i, val, blk = s
         d = LEAF_DEFS[def_i % len(LEAF_DEFS)]
+        ov = overrides.get((fidx, k))
+        if ov == 'demote':
+          d = 'fn'
         objid = target(imp_i, d)
+        path = spell(objid, spell_i)
+        if isinstance(ov, tuple) and ov[1] in by.get(objid, ()):
+          path = ov[1]
         params = ('a', 'b') if d == 'cons' else ('x', 'y')
-        info['stmts'].append({'kind': 'b', 'objid': objid, 'path': spell(objid, spell_i),
+        info['stmts'].append({'kind': 'b', 'objid': objid, 'path': path,
                               'param': params[param_i % 2], 'val': val, 'blk': bool(blk)})
       else:
         _, imp_i, spell_i, param_i, imp_j, tdef_i, tspell_i, call = s
@@ -473,9 +521,8 @@ def _uses_of(info, fidx):
     head = path.split('.')[0]
     imp = info['src'][head]
     out.append((_regname(info, path), objid, (fidx, imp['k']), imp['form'] in (1, 3)))
-    leaf = objid.rsplit('.', 1)[-1]
-    if leaf in ('meth', 'other', 'nm'):     # a method registers its class under the same spelling
-      out.append((_regname(info, path.rsplit('.', 1)[0]), objid.rsplit('.', 1)[0],
+    if _is_method(objid):     # a method registers its class under the same spelling
+      out.append((_regname(info, path.rsplit('.', 1)[0]), _class_of(objid),
                   (fidx, imp['k']), imp['form'] in (1, 3)))
 
   for s in info['stmts']:
@@ -496,6 +543,94 @@ def _collisions(files):
     if len({o for o, _, _ in lst}) > 1:
       bad[reg] = sorted({key for _, key, aliased in lst if aliased})
   return bad
+
+
+def _respelled(files, order):
+  """The known input class method_respelled, read off the resolved statements.
+
+  Walks the statements in execution order.  A use of a method (K.meth, K.N.nm) is in the class
+  when, earlier in execution order,
+    (spelling) its class was first registered -- by a binding on the class, a reference to it,
+               or a use of one of its methods -- through an import spelling whose
+               alias-substituted dotted name for the class differs from the one this method use
+               gives it, or
+    (file)     a reference `@<text>` to its class was written in a file whose text does not
+               denote that class through the imports of the file that now configures the method.
+  Returns one finding per such method use, with a same-name respelling where one exists.
+  """
+  reg = {}       # class objid -> alias-substituted name of its first registration
+  refs = {}      # class objid -> [(file, reference text)]
+  out = []
+  for fi, k in order:
+    info = files[fi]
+    s = info['stmts'][k]
+    uses = [(s['objid'], s['path'], False)]
+    if s['kind'] == 'r':
+      uses.insert(0, (s['tobjid'], s['tpath'], True))    # the value is built first
+    for objid, path, is_ref in uses:
+      if _is_method(objid):
+        cls = _class_of(objid)
+        r_m = _regname(info, path.rsplit('.', 1)[0])
+        stale = [(h, q) for h, q in refs.get(cls, []) if info['table'].get(q) != cls]
+        if (cls in reg and reg[cls] != r_m) or stale:
+          fix = None
+          if not stale:
+            same = [sp for sp in info['by'].get(objid, [])
+                    if _regname(info, sp.rsplit('.', 1)[0]) == reg[cls]]
+            fix = same[0] if same else None
+          out.append({'pos': (fi, k), 'cls': cls, 'r_reg': reg.get(cls), 'r_m': r_m,
+                      'stale': stale, 'fix': fix})
+        reg.setdefault(cls, r_m)
+      elif _is_class(objid):
+        reg.setdefault(objid, _regname(info, path))
+        if is_ref:
+          refs.setdefault(objid, []).append((fi, path))
+  return out
+
+
+def _emitted_respelled(imports, binds, table):
+  """_respelled() applied to a config string emitted by Gin (one file, statements in order)."""
+  info = {'src': {name: {'partial': part} for _, name, _, part in imports}, 'table': table,
+          'by': _by_obj(table), 'stmts': []}
+  for sel, _, val in binds:
+    if table.get(sel) is None:
+      continue
+    st_ = {'kind': 'b', 'objid': table[sel], 'path': sel}
+    if isinstance(val, tuple) and val and val[0] == 'ref' and table.get(val[1]) is not None:
+      st_.update(kind='r', tobjid=table[val[1]], tpath=val[1])
+    info['stmts'].append(st_)
+  return _respelled([info], [(0, k) for k in range(len(info['stmts']))])
+
+
+def _explains(findings, v, model):
+  """Is violation v one of the manifestations of the method_respelled findings?"""
+  classes = {f['cls'] for f in findings}
+  involved = set(classes)
+  for (o, _), spec in model.items():
+    if _is_method(o) and _class_of(o) in classes:
+      involved.add(o)
+    if spec[0] == 'ref' and spec[1] in classes:
+      involved.add(o)                       # a consumer holding a reference to the class
+  names = {n for f in findings for n in (f['r_reg'], f['r_m']) if n}
+  stale = [q for f in findings for _, q in f['stale']]
+  kind, obj, msg = v.kind, getattr(v, 'obj', None), getattr(v, 'msg', '') or ''
+  if kind in ('wrong-object-or-value', 'configurable-unusable', 'emitted-duplicate-binding'):
+    return obj in involved
+  if kind == 'parse-raised:ValueError':
+    return any(n in msg for n in names)
+  if kind == 'parse-raised:NameError':
+    return any(f"'{q.split('.')[0]}'" in msg for q in stale)
+  if kind == 'parse-raised:AttributeError':
+    return any(q in msg for q in stale)
+  return False
+
+
+_RESPELLED_KINDS = ('wrong-object-or-value', 'configurable-unusable', 'emitted-duplicate-binding',
+                    'parse-raised:ValueError', 'parse-raised:NameError',
+                    'parse-raised:AttributeError')
+_RESPELLED_EMITTED_KINDS = ('config-str-reparse-raised:ValueError',
+                            'config-str-reparse-raised:NameError',
+                            'config-str-reparse-raised:AttributeError', 'fresh-child-differs')
 
 
 def _parent(case, i):
@@ -537,7 +672,7 @@ def _order(case):
   roots = [i for i in range(len(files)) if _parent(case, i) is None]
   for r in roots:
     visit(r)
-  return out, roots, layout, children
+  return out, roots, layout
 
 
 def _stmt_text(s):
@@ -565,10 +700,9 @@ _DEFAULTS = {'x': 'dx', 'y': 'dy', 'a': None, 'b': None}
 
 
 def _expect_call(model, objid):
-  leaf = objid.rsplit('.', 1)[-1].split(':')[-1]
-  if leaf in ('K', 'N'):
+  if _is_class(objid):
     return _expect_inst(model, objid)
-  params = ('a', 'b') if leaf == 'cons' else ('x', 'y')
+  params = ('a', 'b') if objid.endswith(':cons') else ('x', 'y')
   d = {'id': objid}
   for p in params:
     d[p] = _expect_val(model, objid, p)
@@ -576,10 +710,10 @@ def _expect_call(model, objid):
 
 
 def _expect_inst(model, objid):
-  d = {'inst': objid, 'is_orig': True,
+  d = {'is_orig': True,
        'got': {'id': objid, 'x': _expect_val(model, objid, 'x'),
                'y': _expect_val(model, objid, 'y')}}
-  methods = ('meth', 'other') if objid.endswith(':K') else ('nm',)
+  methods = ('meth', 'other', 'fn') if objid.endswith(':K') else ('nm',)
   for m in methods:
     d[m] = _expect_call(model, objid + '.' + m)
   return d
@@ -594,7 +728,7 @@ def _expect_val(model, objid, param):
   _, tgt, call = spec
   if call:
     return _expect_call(model, tgt)
-  return {'callable': tgt, 'call': _expect_call(model, tgt)}
+  return {'callable': True, 'call': _expect_call(model, tgt)}
 
 
 def _diff(a, b, path=''):
@@ -612,63 +746,58 @@ def _diff(a, b, path=''):
 
 
 # ----------------------------------------------------------------------------- emitted text
-_BIND_RE = re.compile(r'^([A-Za-z_][\w.]*)\.([A-Za-z_]\w*) = (.*)$')
-_REF_RE = re.compile(r'^@([A-Za-z_][\w.]*)(\(\))?$')
+class _Reader(gin.config_parser.ParserDelegate):
+  """Reads references as plain data; names are NOT resolved by Gin here."""
+
+  def configurable_reference(self, scoped_selector, evaluate):
+    return ('ref', scoped_selector, bool(evaluate))
+
+  def macro(self, name):
+    return ('macro', name)
 
 
 def _parse_emitted(text):
-  """-> (import lines, has_enable, [(selector, param, value text)], unparsed lines)."""
-  logical = []
-  cur = ''
-  for line in text.split('\n'):
-    if cur:
-      cur += ' ' + line.strip()
-    else:
-      cur = line.rstrip()
-    if cur.endswith('\\'):
-      cur = cur[:-1].rstrip()
-      continue
-    logical.append(cur)
-    cur = ''
+  """Statement syntax via Gin's public statement parser (C03's subject, trusted here).
+
+  -> (imports [(python line, bound name, is plain, alias-substituted path)], has_enable,
+      binds [(selector, param, value)], other statements).  What the selectors DENOTE is decided
+  by Python in a fresh child, not by Gin.
+  """
   imports, binds, other = [], [], []
   enable = False
-  for line in logical:
-    s = line.strip()
-    if not s or s.startswith('#'):
-      continue
-    if s == ENABLE:
-      enable = True
-    elif s.startswith('import ') or s.startswith('from '):
-      imports.append(s)
-    else:
-      m = _BIND_RE.match(s)
-      if m:
-        binds.append((m.group(1), m.group(2), m.group(3).strip()))
+  cp = gin.config_parser
+  for st_ in cp.ConfigParser(text, _Reader()):
+    if isinstance(st_, cp.ImportStatement):
+      parts = st_.module.split('.')
+      if st_.is_from and parts[0] == '__gin__':
+        if st_.module == '__gin__.dynamic_registration' and not st_.alias:
+          enable = True
+        else:
+          other.append(repr(st_))
+      elif st_.is_from:
+        line = f"from {'.'.join(parts[:-1])} import {parts[-1]}"
+        if st_.alias:
+          imports.append((f'{line} as {st_.alias}', st_.alias, False,
+                          '.'.join(parts[:-1] + [st_.alias])))
+        else:
+          imports.append((line, parts[-1], False, st_.module))
+      elif st_.alias:
+        imports.append((f'import {st_.module} as {st_.alias}', st_.alias, False,
+                        '.'.join(parts[:-1] + [st_.alias])))
       else:
-        other.append(s)
+        imports.append((f'import {st_.module}', parts[0], True, parts[0]))
+    elif isinstance(st_, cp.BindingStatement) and st_.arg_name and not st_.scope:
+      binds.append((st_.selector, st_.arg_name, st_.value))
+    elif isinstance(st_, cp.BlockDeclaration):
+      continue
+    else:
+      other.append(repr(st_))
   return imports, enable, binds, other
-
-
-def _bound_of(line):
-  """Emitted import line -> (bound name, is plain `import a.b`, alias-substituted path)."""
-  w = line.split()
-  if w[0] == 'import':
-    parts = w[1].split('.')
-    if len(w) == 4:
-      return w[3], False, '.'.join(parts[:-1] + [w[3]])
-    return parts[0], True, parts[0]
-  parts = w[1].split('.') + [w[3]]
-  if len(w) == 6:
-    return w[5], False, '.'.join(parts[:-1] + [w[5]])
-  return w[3], False, '.'.join(parts)
 
 
 def _emitted_collisions(imports, selectors, table):
   """The alias-collision class, read off an emitted config string."""
-  partial = {}
-  for line in imports:
-    name, _, part = _bound_of(line)
-    partial[name] = part
+  partial = {name: part for _, name, _, part in imports}
   seen = {}
   for sel in selectors:
     objid = table.get(sel)
@@ -676,14 +805,13 @@ def _emitted_collisions(imports, selectors, table):
     if objid is None or head not in partial:
       continue
     seen.setdefault(partial[head] + '.' + rest, set()).add(objid)
-    if objid.rsplit('.', 1)[-1] in ('meth', 'other', 'nm'):
-      seen.setdefault(partial[head] + '.' + rest.rsplit('.', 1)[0], set()).add(
-          objid.rsplit('.', 1)[0])
+    if _is_method(objid):
+      seen.setdefault(partial[head] + '.' + rest.rsplit('.', 1)[0], set()).add(_class_of(objid))
   return sorted(reg for reg, objs in seen.items() if len(objs) > 1)
 
 
 # ----------------------------------------------------------------------------- fault injection
-def _inject(case, files, texts, names, order_roots):
+def _inject(case, files, texts):
   """Mutates texts[f] = (head, body) according to case['error']; returns (kind, relation)."""
   kind_i, f_i, a, b, c = case['error']
   kind = ERROR_KINDS[kind_i % len(ERROR_KINDS)]
@@ -727,13 +855,15 @@ def _inject(case, files, texts, names, order_roots):
   else:  # name-other-file
     bound = set(info['src'])
     cands = []
+    other = {}
     if n > 1:
       # the including file first, then included files, then unrelated files
       near = [g for g in range(n) if g == _parent(case, f)]
       near += [g for g in range(n) if _parent(case, g) == f]
       near += [g for g in range(n) if g != f and g not in near]
       g = near[a % len(near)]
-      cands = sorted(p for p in files[g]['table'] if p.split('.')[0] not in bound)
+      other = files[g]['table']
+      cands = sorted(p for p in other if p.split('.')[0] not in bound)
       if _parent(case, g) == f:
         rel = 'child'
       elif _parent(case, f) == g:
@@ -744,7 +874,7 @@ def _inject(case, files, texts, names, order_roots):
       cands = ['qq.fn', 'qq.K.meth']
       rel = 'nowhere'
     path = cands[c % len(cands)]
-    if c & 1 and not path.endswith(('meth', 'other', 'nm', 'cons')):
+    if c & 1 and path in other and not (_is_method(other[path]) or path.endswith('cons')):
       holders = sorted(p for p, o in info['table'].items() if o.endswith(':cons'))
       line = f'{holders[0]}.b = @{path}()'
     else:
@@ -775,35 +905,48 @@ def _check(case, root):
   _write_tree(root, names, case['pkg'])
   has_error = case.get('error') is not None
   keep = bool(case.get('keep')) and not has_error
+  keepm = bool(case.get('keepm')) and not has_error
+  order, roots, layout = _order(case)
 
-  # ---- resolve, excluding the known alias-collision class by construction
-  renames = {}
-  files = _resolve_files(case, names, root, renames)
-  bad = _collisions(files)
+  # ---- resolve, excluding the two known input classes by construction
+  renames, overrides, cache = {}, {}, {}
+  files = _resolve_files(case, names, root, renames, overrides, cache)
   kept_collisions = {}
-  if bad and keep:
-    kept_collisions = bad
-    labels.add('kept:alias-collision')
-  else:
-    rounds = 0
-    while bad:
+  kept_respelled = []
+  for _ in range(60):
+    changed = False
+    bad = _collisions(files)
+    if bad and keep:
+      kept_collisions = bad
+      labels.add('kept:alias-collision')
+    elif bad:
       labels.add('excluded:alias-collision')
-      rounds += 1
-      if rounds > 6:
-        raise OutOfDomain('alias collision not removable')
       for keys in bad.values():
         for (fi, k) in keys:
           renames[(fi, k)] = f'w{fi}{k}'
-      files = _resolve_files(case, names, root, renames)
-      bad = _collisions(files)
+      changed = True
+    resp = _respelled(files, order)
+    if resp and keepm:
+      kept_respelled = resp
+      labels.add('kept:method-respelled')
+    elif resp:
+      labels.add('excluded:method-respelled')
+      f = resp[0]                  # the first one in execution order; later ones may vanish
+      overrides[f['pos']] = ('respell', f['fix']) if f['fix'] and f['pos'] not in overrides \
+          else 'demote'
+      changed = True
+    if not changed:
+      break
+    files = _resolve_files(case, names, root, renames, overrides, cache)
+  else:
+    raise OutOfDomain('known classes not removable')
 
-  order, roots, layout, children = _order(case)
   paths = {i: os.path.join(root, f'cfg{i}.gin') for i in range(len(files))}
   texts = {i: _file_lines(files[i], layout(i), paths) for i in range(len(files))}
 
   err_kind = None
   if has_error:
-    err_kind, rel = _inject(case, files, texts, names, roots)
+    err_kind, rel = _inject(case, files, texts)
     labels.add('error:' + err_kind)
     if rel:
       labels.add(f'error:{err_kind}:{rel}')
@@ -814,17 +957,16 @@ def _check(case, root):
   # ---- model
   model = {}
   spellings = {}
-  first_ref = {}      # class objid -> (position, file) of the first @K reference
+  first_ref = {}      # class objid -> file of the first @K reference to it
   method_after_ref = False
   method_after_ref_other_file = False
-  for pos, (fi, k) in enumerate(order):
+  for fi, k in order:
     s = files[fi]['stmts'][k]
     spellings.setdefault(s['objid'], set()).add(s['path'])
     if s['kind'] == 'b':
       model[(s['objid'], s['param'])] = ('int', s['val'])
-      leaf = s['objid'].rsplit('.', 1)[-1]
-      if leaf in ('meth', 'other', 'nm'):
-        cls = s['objid'].rsplit('.', 1)[0]
+      if _is_method(s['objid']):
+        cls = _class_of(s['objid'])
         if cls in first_ref:
           method_after_ref = True
           if first_ref[cls] != fi:
@@ -835,8 +977,7 @@ def _check(case, root):
       first_ref.setdefault(s['tobjid'], fi)
   watch = sorted({o for o, _ in model} |
                  {spec[1] for spec in model.values() if spec[0] == 'ref'} |
-                 {o.rsplit('.', 1)[0] for o, _ in model
-                  if o.rsplit('.', 1)[-1] in ('meth', 'other', 'nm')})
+                 {_class_of(o) for o, _ in model if _is_method(o)})
 
   # ---- labels
   labels.add(f'files:{len(files)}')
@@ -861,11 +1002,11 @@ def _check(case, root):
   if any(len(v) > 1 for v in spellings.values()):
     labels.add('two-spellings-one-object')
   used_objs = set(spellings)
-  if any(o.rsplit('.', 1)[-1] in ('meth', 'other') for o in used_objs):
+  if any(_is_method(o) and ':K.N.' not in o for o in used_objs):
     labels.add('method')
   if any(o.endswith(':K.N') for o in used_objs):
     labels.add('nested-class')
-  if any(o.endswith('.nm') for o in used_objs):
+  if any(_is_method(o) and ':K.N.' in o for o in used_objs):
     labels.add('nested-method')
   if method_after_ref:
     labels.add('method-after-reference')
@@ -888,6 +1029,92 @@ def _check(case, root):
   multi = len(files) >= 2 or any(len(v) > 1 for v in mod_spellings.values())
   deep = bool(labels & {'method', 'nested-class', 'nested-method'})
   nontrivial = multi and deep and not has_error
+
+  ctx = {'case': case, 'root': root, 'tops': tops, 'files': files, 'texts': texts,
+         'paths': paths, 'roots': roots, 'model': model, 'watch': watch, 'labels': labels,
+         'has_error': has_error, 'err_kind': err_kind, 'kept_collisions': kept_collisions,
+         'nontrivial': nontrivial}
+  try:
+    return _drive(ctx)
+  except Violation as v:
+    if kept_respelled and v.kind in _RESPELLED_KINDS and _explains(kept_respelled, v, model):
+      why = '; '.join(
+          f"{f['cls']} first registered as {f['r_reg']}, method use names it {f['r_m']}"
+          + (f", stale references {f['stale']}" if f['stale'] else '') for f in kept_respelled)
+      raise Violation('method-respelled:' + v.kind, f'[{why}]\n{v.detail}')
+    raise
+
+
+def _viol(kind, detail, obj=None, msg=None):
+  v = Violation(kind, detail)
+  v.obj, v.msg = obj, msg
+  return v
+
+
+def _denotes(text, tag, ctx):
+  """Reads a config string with Python's semantics in a fresh child; it must denote the model.
+
+  -> (imports, binds, python table, selectors).  Violation kinds are prefixed with `tag`.
+  """
+  root, tops, model, texts = ctx['root'], ctx['tops'], ctx['model'], ctx['texts']
+  try:
+    imports, enable, binds, other = _parse_emitted(text)
+  except Exception as e:  # pylint: disable=broad-except
+    raise Violation(tag + '-unparsable', f'{type(e).__name__}: {e}\n{text}')
+  require(enable, tag + '-without-enabling', text)
+  require(not other, tag + '-unexpected-statement', lambda: f'{other}\n{text}')
+  seen_bound = {}
+  for line, name, plain, _ in imports:
+    prev = seen_bound.get(name)
+    if prev is not None and not (plain and prev[1]):
+      raise Violation(tag + '-colliding-bound-names', f'{prev[0]!r} and {line!r}\n{text}')
+    seen_bound[name] = (line, plain)
+  lines = tuple(i[0] for i in imports)
+  cache = ctx.setdefault('emitted_tables', {})
+  if lines not in cache:
+    cache[lines] = _sub(_py_table, {'root': root, 'tops': tops, 'imports': list(lines)})
+  et = cache[lines]
+  require(not et['error'], tag + '-imports-fail-in-python', lambda: f'{et["error"]}\n{text}')
+  emitted = {}
+  selectors = []
+  for sel, param, val in binds:
+    selectors.append(sel)
+    objid = et['table'].get(sel)
+    require(objid is not None, tag + '-selector-unresolvable',
+            lambda: f'{sel!r} does not resolve in a fresh interpreter given the emitted '
+                    f'imports\n{text}\nfiles:\n{_dump(texts)}')
+    if isinstance(val, tuple) and val and val[0] == 'ref':
+      selectors.append(val[1])
+      tgt = et['table'].get(val[1])
+      require(tgt is not None, tag + '-selector-unresolvable',
+              lambda: f'reference {val!r} does not resolve\n{text}\nfiles:\n{_dump(texts)}')
+      v = ('ref', tgt, val[2])
+    elif isinstance(val, int) and not isinstance(val, bool):
+      v = ('int', val)
+    else:
+      raise Violation(tag + '-unexpected-value', f'{sel}.{param} = {val!r}\n{text}')
+    if (objid, param) in emitted:
+      raise _viol(tag + '-duplicate-binding',
+                  f'{objid} {param} appears twice\n{text}\nfiles:\n{_dump(texts)}', obj=objid)
+    emitted[(objid, param)] = v
+  if emitted != model:
+    missing = sorted(set(model) - set(emitted))
+    extra = sorted(set(emitted) - set(model))
+    wrong = sorted(k for k in set(model) & set(emitted) if model[k] != emitted[k])
+    raise Violation(tag + '-denotes-other-bindings',
+                    f'missing={missing} extra={extra} wrong='
+                    f'{[(k, model[k], emitted[k]) for k in wrong]}\n{text}\nfiles:\n'
+                    f'{_dump(texts)}')
+  return imports, binds, et, selectors
+
+
+def _drive(ctx):
+  """Drives Gin with the prepared files and evaluates the oracles."""
+  case, root, tops, files, texts = (ctx[k] for k in ('case', 'root', 'tops', 'files', 'texts'))
+  paths, roots, model, watch, labels = (ctx[k] for k in ('paths', 'roots', 'model', 'watch',
+                                                          'labels'))
+  has_error, err_kind, kept_collisions, nontrivial = (
+      ctx[k] for k in ('has_error', 'err_kind', 'kept_collisions', 'nontrivial'))
 
   # ---- drive Gin
   root_args = []
@@ -919,8 +1146,8 @@ def _check(case, root):
                         f'{sorted(kept_collisions)}; Gin: {raised["msg"][:300]}\n'
                         f'files:\n{_dump(texts)}')
       raise OutOfDomain('known:alias_collision')
-    raise Violation('parse-raised:' + raised['type'],
-                    f'{raised["msg"][:600]}\nfiles:\n{_dump(texts)}')
+    raise _viol('parse-raised:' + raised['type'],
+                f'{raised["msg"][:600]}\nfiles:\n{_dump(texts)}', msg=raised['msg'])
 
   expected = {o: _expect_call(model, o) for o in watch}
   for o in watch:
@@ -929,64 +1156,23 @@ def _check(case, root):
       kind = 'wrong-object-or-value'
       if 'error' in p1['obs'][o]:
         kind = 'configurable-unusable'
-      raise Violation(kind, f'{o}: observed vs model at {d}\nobserved: {p1["obs"][o]}\n'
-                            f'files:\n{_dump(texts)}')
+      raise _viol(kind, f'{o}: observed vs model at {d}\nobserved: {p1["obs"][o]}\n'
+                        f'files:\n{_dump(texts)}', obj=o)
   labels.add('values-checked')
 
   # ---- the config string: Python's reading of the emitted text, in a fresh child
   text = p1['text']
   if text is None:
     raise Violation('config-str-raised', str(p1.get('text_error')) + '\nfiles:\n' + _dump(texts))
-  imports, enable, binds, other = _parse_emitted(text)
-  require(enable, 'emitted-without-enabling', text)
-  require(not other, 'emitted-unreadable-line', lambda: f'{other}\n{text}')
-  seen_bound = {}
-  for line in imports:
-    name, plain, _ = _bound_of(line)
-    prev = seen_bound.get(name)
-    if prev is not None and not (plain and prev[1]):
-      raise Violation('emitted-colliding-bound-names', f'{prev[0]!r} and {line!r}\n{text}')
-    seen_bound[name] = (line, plain)
+  imports, binds, et, selectors = _denotes(text, 'emitted', ctx)
   source_aliases = {i['bound'] for info in files for i in info['imps']}
-  if any(name not in source_aliases for name in seen_bound):
+  if any(name not in source_aliases for _, name, _, _ in imports):
     labels.add('emitted-realiased')
-  et = _sub(_py_table, {'root': root, 'tops': tops, 'imports': imports})
-  require(not et['error'], 'emitted-imports-fail-in-python', lambda: f'{et["error"]}\n{text}')
-  emitted = {}
-  for sel, param, val in binds:
-    objid = et['table'].get(sel)
-    require(objid is not None, 'emitted-selector-unresolvable',
-            lambda: f'{sel!r} does not resolve in a fresh interpreter given the emitted '
-                    f'imports\n{text}\nfiles:\n{_dump(texts)}')
-    m = _REF_RE.match(val)
-    if m:
-      tgt = et['table'].get(m.group(1))
-      require(tgt is not None, 'emitted-selector-unresolvable',
-              lambda: f'reference {val!r} does not resolve\n{text}\nfiles:\n{_dump(texts)}')
-      v = ('ref', tgt, bool(m.group(2)))
-    else:
-      try:
-        v = ('int', int(val))
-      except ValueError:
-        raise Violation('emitted-unreadable-value', f'{sel}.{param} = {val}\n{text}')
-    require((objid, param) not in emitted, 'emitted-duplicate-binding',
-            lambda: f'{objid} {param} appears twice\n{text}\nfiles:\n{_dump(texts)}')
-    emitted[(objid, param)] = v
-  if emitted != model:
-    missing = sorted(set(model) - set(emitted))
-    extra = sorted(set(emitted) - set(model))
-    wrong = sorted(k for k in set(model) & set(emitted) if model[k] != emitted[k])
-    raise Violation('emitted-denotes-other-bindings',
-                    f'missing={missing} extra={extra} wrong='
-                    f'{[(k, model[k], emitted[k]) for k in wrong]}\n{text}\nfiles:\n'
-                    f'{_dump(texts)}')
 
   # ---- Gin's reading of the emitted text, in a fresh child
   p2 = _sub(_phase2, {'root': root, 'tops': tops, 'text': text, 'watch': watch})
   if p2.get('raised'):
     r = p2['raised']
-    selectors = [sel for sel, _, _ in binds] + [
-        _REF_RE.match(v).group(1) for _, _, v in binds if _REF_RE.match(v)]
     coll = _emitted_collisions(imports, selectors, et['table'])
     if (r['where'] == 'reparse' and 'ValueError' in r['mro'] and
         any(reg in r['msg'] for reg in coll)):
@@ -997,22 +1183,39 @@ def _check(case, root):
                         f'the emitted config string is in the alias-collision class {coll}; '
                         f'Gin: {r["msg"][:300]}\n{text}\nfiles:\n{_dump(texts)}')
       raise OutOfDomain('known:alias_collision (emitted text)')
+    resp = _emitted_respelled(imports, binds, et['table'])
+    probe = _viol('parse-raised:' + r['type'], '', msg=r['msg'])
+    if r['where'] == 'reparse' and resp and _explains(resp, probe, model):
+      # The emitted text is itself an input of the known method_respelled class (Gin spelled
+      # a class and one of its methods, or two of its methods, through two imports).
+      raise Violation('method-respelled:config-str-reparse-raised:' + r['type'],
+                      f'the emitted config string is in the method_respelled class '
+                      f'{[(f["cls"], f["r_reg"], f["r_m"]) for f in resp]}; Gin: '
+                      f'{r["msg"][:300]}\n{text}\nfiles:\n{_dump(texts)}')
     raise Violation('config-str-' + str(r['where']) + '-raised:' + r['type'],
                     f'{r["msg"][:600]}\n{text}\nfiles:\n{_dump(texts)}')
   for o in watch:
     d = _diff(p2['obs'][o], p1['obs'][o])
     if d:
+      resp = _emitted_respelled(imports, binds, et['table'])
+      if resp and _explains(resp, _viol('wrong-object-or-value', '', obj=o), model):
+        raise Violation('method-respelled:fresh-child-differs',
+                        f'the emitted config string is in the method_respelled class '
+                        f'{[(f["cls"], f["r_reg"], f["r_m"]) for f in resp]}; {o}: fresh vs '
+                        f'original at {d}\n{text}\nfiles:\n{_dump(texts)}')
       raise Violation('fresh-child-differs', f'{o}: fresh vs original at {d}\n{text}\nfiles:\n'
                                              f'{_dump(texts)}')
-  # Same import block and same sections.  The ORDER of the sections follows Gin's internal
-  # registry names (which depend on the import spelling); the property does not speak about
-  # it (canonical order is C06), so a different order is only counted.
-  b1 = [b.strip('\n') for b in text.split('\n\n')]
-  b2 = [b.strip('\n') for b in p2['text'].split('\n\n')]
-  require(b1[0] == b2[0] and sorted(b1) == sorted(b2), 'config-str-not-a-fixpoint',
-          lambda: f'--- first\n{text}\n--- after re-parse in a fresh child\n{p2["text"]}')
-  if b1 != b2:
-    labels.add('reserialised-section-order-differs')
+  # The re-serialised text must again denote exactly the model (every selector resolves to the
+  # same object).  Textual identity is NOT asserted: the property does not state it, the ORDER
+  # of sections follows internal registry names (canonical order is C06), and which of several
+  # valid spellings a section uses follows the import of the latest registration.  Both kinds
+  # of difference are only counted.
+  if p2['text'] != text:
+    _denotes(p2['text'], 're-emitted', ctx)
+    b1 = sorted(b.strip('\n') for b in text.split('\n\n'))
+    b2 = sorted(b.strip('\n') for b in p2['text'].split('\n\n'))
+    labels.add('reserialised-section-order-differs' if b1 == b2
+               else 'reserialised-spelling-differs')
   labels.add('roundtrip-checked')
   if nontrivial:
     labels.add('nontrivial')
@@ -1041,7 +1244,7 @@ def _case(draw):
   mod_i = st.just(focus) | st.integers(0, 7)
   imp = st.tuples(mod_i, st.integers(0, 3), _alias_i).map(list)
   imp_i = st.just(0) | st.integers(0, 3)
-  def_i = st.sampled_from([0, 1, 2, 2, 3, 3, 3, 4, 5, 6, 7])
+  def_i = st.sampled_from([0, 1, 2, 2, 3, 3, 3, 4, 5, 6, 7, 8])
   bind = st.tuples(st.just('b'), imp_i, def_i, _small, st.integers(0, 1), st.integers(0, 999),
                    st.sampled_from([0, 0, 0, 1])).map(list)
   ref = st.tuples(st.just('r'), imp_i, _small, st.integers(0, 1), imp_i,
@@ -1061,7 +1264,8 @@ def _case(draw):
     error = [draw(st.sampled_from(range(len(ERROR_KINDS)))), draw(st.integers(0, 3)),
              draw(_small), draw(_small), draw(_small)]
   keep = bool(draw(st.sampled_from([0, 0, 1])))
-  return {'pkg': pkg, 'files': files, 'error': error, 'keep': keep}
+  keepm = bool(draw(st.sampled_from([0] * 7 + [1])))
+  return {'pkg': pkg, 'files': files, 'error': error, 'keep': keep, 'keepm': keepm}
 
 
 def strategy():
@@ -1087,6 +1291,22 @@ def _sweep_forms(tier):
               'stmts': [['b', 0, 3, 0, 1, 17, 0], ['b', 0, 5, 0, 0, 18, 0]]}
         cases.append({'pkg': {'init': [init] * 3, 'reexp': 3 if init else 0},
                       'files': [f0, f1, f2], 'error': None, 'keep': False})
+      # one file, one import: nothing but this form can make the names resolve
+      single = {'parent': None, 'at': 0, 'str': bool(form & 2), 'imports': [[mod, form, 1]],
+                'stmts': [['b', 0, 0, 0, 0, 21, 0], ['b', 0, 8, 0, 1, 22, 0],
+                          ['r', 0, 0, 0, 0, 2, 0, 1], ['b', 0, 3, 0, 0, 23, 0],
+                          ['b', 0, 6, 0, 1, 24, 0], ['b', 0, 7, 0, 1, 25, 1]]}
+      cases.append({'pkg': {'init': [False] * 3, 'reexp': 0}, 'files': [single],
+                    'error': None, 'keep': False})
+  # two files binding ONE name to two modules: the config string has to re-alias one of them
+  for form in (2, 3):
+    for inc in (None, 0):
+      fa = {'parent': None, 'at': 1, 'str': False, 'imports': [[1, form, 0]],
+            'stmts': [['b', 0, 0, 0, 0, 31, 0], ['b', 0, 2, 0, 1, 32, 0]]}
+      fb = {'parent': inc, 'at': 1, 'str': False, 'imports': [[4, form, 0]],
+            'stmts': [['b', 0, 1, 0, 0, 33, 0], ['r', 0, 0, 0, 0, 2, 0, 1]]}
+      cases.append({'pkg': {'init': [False] * 3, 'reexp': 0}, 'files': [fa, fb],
+                    'error': None, 'keep': False})
   return cases, True
 
 
@@ -1121,4 +1341,19 @@ KNOWN = {
     # alias-substituted dotted names coincide and (b) Gin rejected it with a ValueError naming
     # exactly such a name.
     'alias_collision': lambda case, verdict: verdict.get('kind') == 'alias-collision',
+    # check_case prefixes a violation kind with 'method-respelled:' only when the case carries
+    # keepm=true, _respelled() finds the structural condition in the resolved statements (a
+    # method use whose class was first registered under another alias-substituted name, or whose
+    # class is referenced by a text that does not denote it through the configuring file's
+    # imports) AND _explains() ties the failure to that class: a wrong value / unusable
+    # configurable / duplicated emitted binding on the class, its methods or a consumer holding
+    # a reference to it; a ValueError naming one of the two names of the class; a NameError /
+    # AttributeError naming the stale reference text.
+    # The same analysis applied to a config string emitted by Gin (kinds config-str-reparse-raised
+    # and fresh-child-differs) needs no keepm: which imports the emitted text uses is Gin's choice.
+    'method_respelled': lambda case, verdict: (
+        str(verdict.get('kind', '')).startswith('method-respelled:') and (
+            (bool(case.get('keepm')) and
+             verdict['kind'][len('method-respelled:'):] in _RESPELLED_KINDS) or
+            verdict['kind'][len('method-respelled:'):] in _RESPELLED_EMITTED_KINDS)),
 }
